@@ -9,7 +9,7 @@ from ..engine.match import Spec, loop_doms, residual
 from ..engine.report import Check
 from ..engine.terms import C, Term, implies, mentions, mk_not, show
 from ..engine.walker import Event
-from .common import CONS, short
+from .common import CONS, functions_mentioning, short
 
 RP = "skepticoin.networking.remote_peer.ConnectedRemotePeer."
 DI = "skepticoin.networking.disk_interface.DiskInterface."
@@ -91,16 +91,16 @@ class RelayAutomaton(Automaton):
         return r
 
     def on_branch(self, state: State, test: Term, polarity: bool) -> Optional[State]:
-        if test == self.t_new:
-            return upd(state, new=True) if polarity else state
-        if test == mk_not(self.t_new):
-            return state if polarity else upd(state, new=True)
-        if test == self.t_orphan:
-            return state if polarity else upd(state, parent=True)
-        if polarity and implies(test, self.irt0):
-            return None if state[BULK] else state
-        if not polarity and implies(self.irt0, test):
-            return upd(state, bulk=True)
+        fact = test if polarity else mk_not(test)       # what holds on this branch
+        if implies(fact, self.t_new):
+            state = upd(state, new=True)
+        if implies(fact, mk_not(self.t_orphan)):
+            state = upd(state, parent=True)
+        if implies(fact, self.irt0):
+            if state[BULK]:
+                return None                             # infeasible: this path took the bulk-download branch
+        elif implies(fact, mk_not(self.irt0)):
+            state = upd(state, bulk=True)
         return state
 
     def on_event(self, state: State, ev: Event) -> Iterable[State]:
@@ -233,8 +233,8 @@ def r09_6(ck: Check) -> None:
         ck.violated("R09.6", construct, "%d relay sites" % len(bc), summ.fi.loc)
     # only consumer of DATA_BLOCK
     callers = []
-    for fi in ck.repo.all_functions():
-        if "handle_block_received" in ck.repo.src(fi.node) and fi.qualname != RP + "handle_block_received":
+    for fi in functions_mentioning(ck, "handle_block_received"):
+        if fi.qualname != RP + "handle_block_received":
             s = ck.summ(fi.qualname, 0)
             if any(e.kind == "call" and RP + "handle_block_received" in e.targets for e in s.events):
                 callers.append(fi.qualname)
